@@ -60,7 +60,7 @@ Proof. intros Hn. apply progress_sel; auto using mergedir_sel_true. Qed.
 Example error_run_terminates :
   option_map (fun s => (terminal s, result_of s))
     (run mergedir_sel bad_parse (fun _ => true)
-       [LHand 0; LStart 0; LParse 0; LWalkerCancel; LPathsCancel; LParseCancel; LMergerExit]
+       [LHand 0; LStart 0; LParse 0; LWalkerCancel; LWalkerDone; LPathsCancel; LParseCancel; LMergerExit]
        (init 1 [1; 2]%N)) = Some (true, RErr).
 Proof. vm_compute. reflexivity. Qed.
 
@@ -75,3 +75,13 @@ Example trace_demo :
   /\ accept_trace mergedir_sel 1 [(1, PErr); (2, POk 102)]%N [1; 2]%N
     [EStart 1; EDone 1; EStart 2; EDone 2]%N (Some [102]%N) = false.
 Proof. vm_compute. repeat split. Qed.
+
+(* a trace recorded on the real MergeDir (3 workers; path 5 = sub/sub/data.ach unparseable, path 6
+   in the same sub-directory, path 7 back in the root): after the failure the walker abandons the
+   sub-directory (path 6 is never handed out) but its caller's loop still hands out path 7.
+   Accepted since LWalkerCancel drops one path at a time instead of ending the walk *)
+Example trace_walker_abandons_subdirectory :
+  accept_trace mergedir_sel 3 [(1, POk 101); (2, POk 102); (3, POk 103); (4, POk 104); (5, PErr); (6, PSkip); (7, PSkip)]%N
+    [1; 2; 3; 4; 5; 6; 7]%N
+    [EStart 1; EStart 3; EStart 2; EDone 1; EStart 4; EDone 2; EStart 5; EDone 5; EDone 3; EStart 7; EDone 7; EDone 4]%N None = true.
+Proof. vm_compute. reflexivity. Qed.
